@@ -171,8 +171,8 @@ theorem readAs_slice_fx (fx : Fixes) (t : Target) (a : Arr) (o l i : Nat) (hi : 
     readAs fx t (sliceView a o l) i = readAs fx t a (o + i) :=
   sliceP_all fx t a o l i hi ⟨h, hs, hn, hp⟩
 
-/-- `deserialize_any` of slot `i` of the slice = of slot `o + i` of the whole array, as outcomes (the former form of
-this theorem went through C02 `read_any_decode` and needed the slot to decode and its strings to be UTF-8) -/
+/-- `deserialize_any` of slot `i` of the slice = of slot `o + i` of the whole array, as outcomes; proved directly
+(`readAny_slice`), not through C02 `read_any_decode`: the slot need not decode and its strings need not be UTF-8 -/
 theorem read_slice (a : Arr) (o l i : Nat) (hi : i < l) (h : o + l ≤ lenOf a)
     (hs : sliceable a = true) (hn : new Fixes.all a = .ok ()) (hp : physical a = true) :
     readAny Fixes.all (sliceView a o l) i = readAny Fixes.all a (o + i) :=
